@@ -88,11 +88,24 @@ SIGS['every-nounknown'] = {
     'specials': SIGS['every']['specials'], 'verb': False,
 }
 
+SIGS['default-math'] = {
+    'macros': {k: SIGS['default']['macros'][k] for k in
+               ('text', 'textbf', 'mbox', 'ensuremath', 'mathrm', 'frac', 'sqrt', 'alpha', 'hat',
+                'item', '\\')},
+    'envs': {k: SIGS['default']['envs'][k] for k in ('equation', 'align*', 'x', 'itemize', 'array')},
+    'specials': ['~', '&'], 'verb': False, 'mathy': True,
+}
+SIGS['every-math'] = {
+    'macros': {k: SIGS['every']['macros'][k] for k in
+               ('mmath', 'mtext', 'mmand', 'mopt', 'mcombo', 'mnone', 'mr')},
+    'envs': dict(SIGS['every']['envs']),
+    'specials': ['~'], 'verb': False, 'mathy': True,
+}
 SIGS['default-noverb'] = dict(SIGS['default'], verb=False)
 SIGS['every-noverb'] = dict(SIGS['every'], macros={k: v for k, v in SIGS['every']['macros'].items()
                                                    if k not in ('mv', 'mvb')})
 # which real context a signature table is parsed with
-CTX_OF = {'default': 'default', 'every': 'every', 'default-noverb': 'default',
+CTX_OF = {'default-math': 'default', 'every-math': 'every', 'default': 'default', 'every': 'every', 'default-noverb': 'default',
           'every-noverb': 'every', 'every-strings': 'every-strings',
           'every-nounknown': 'every-nounknown'}
 
@@ -214,6 +227,11 @@ def items_strategy(signame, depth, mode, in_bracket, max_size=4):
     @st.composite
     def one_item(draw):
         r = draw(_S_INT)
+        if sig.get('mathy') and depth > 0:
+            # remap so that math / mode-switching constructs dominate
+            r = 30 + (r * 7) // 10 if r >= 25 else r
+            if r >= 72:
+                r = 86 + (r - 72) // 4      # 86..92 -> math
         if depth <= 0 or r < 45:
             q = r % 9 if depth > 0 else draw(_S_INT) % 9
             if q <= 2:
@@ -358,6 +376,10 @@ def _norm_slots(item_slots, sigslots, sig):
             content = normalise(content, sig, in_bracket=True)
         elif form == 'token':
             content = list(content)
+            if content[0] == 'macro' and is_control_word(content[1]) and not content[2]:
+                # a control word used as single-token argument must not run into a following
+                # letter: it always carries its own trailing space
+                content[2] = ' '
         elif form == 'verb':
             o, c, t = content
             if o == c:
@@ -530,88 +552,143 @@ def _fix_adjacency(items, sig, in_bracket):
 
 
 # ---------------------------------------------------------------------------
-# rendering
+# rendering.  Everything goes through one routine that emits (text, mode) chunks,
+# where mode = (in_math, opening delimiter) is the mode LaTeX structure implies for
+# a node *starting* at that character (C10): a construct's own delimiters / name
+# carry the mode of the list it sits in, its contents the inner mode.
 
-def _render_pre(pre):
-    s = ''
+TEXT = (False, None)
+
+
+def _slot_mode(sg, mode):
+    m = sg.get('mode') if sg else None
+    if m == 'math':
+        return (True, None)
+    if m == 'text':
+        return (False, None)
+    return mode
+
+
+def _emit_pre(pre, mode, out):
     for p in pre:
         if p[0] == 'space':
-            s += p[1]
+            out.append((p[1], mode))
         else:
-            s += '%' + p[1] + p[2]
-    return s
+            out.append(('%' + p[1] + p[2], mode))
 
 
-def _render_slot(sl, sg):
+def _emit_slot(sl, sg, mode, out, maths):
     form, pre, content = sl
-    s = _render_pre(pre)
+    am = _slot_mode(sg, mode)
+    _emit_pre(pre, mode, out)
     if form == 'braced':
-        return s + '{' + render(content) + '}'
-    if form == 'token':
-        return s + render([content])
-    if form == 'star':
-        return s + '*'
-    if form == 'marker':
-        return s + content
-    if form == 'bracket':
+        out.append(('{', am))
+        _emit(content, am, None, out, maths)
+        out.append(('}', am))
+    elif form == 'token':
+        _emit([content], am, None, out, maths)
+    elif form == 'star':
+        out.append(('*', am))
+    elif form == 'marker':
+        out.append((content, am))
+    elif form == 'bracket':
         o, c = ('[', ']')
         if sg is not None and sg['k'] in ('r', 'd'):
             o, c = sg['x'][0], sg['x'][1]
-        return s + o + render(content, bracket=(o, c)) + c
-    if form == 'verb':
-        return s + content[0] + content[2] + content[1]
-    raise ValueError(form)
+        out.append((o, am))
+        _emit(content, am, (o, c), out, maths)
+        out.append((c, am))
+    elif form == 'verb':
+        out.append((content[0] + content[2] + content[1], am))
+    else:
+        raise ValueError(form)
 
 
-_CUR_SIG = [None]
+def _emit(items, mode, bracket, out, maths):
+    for it in items:
+        k = it[0]
+        if k in ('text', 'space', 'par'):
+            out.append((it[1], mode))
+        elif k == 'group':
+            out.append(('{', mode))
+            _emit(it[1], mode, None, out, maths)
+            out.append(('}', mode))
+        elif k == 'bgroup':
+            o, c = bracket or ('[', ']')
+            out.append((o, mode))
+            _emit(it[1], mode, bracket, out, maths)
+            out.append((c, mode))
+        elif k == 'comment':
+            out.append(('%' + it[1] + it[2], mode))
+        elif k == 'specials':
+            out.append((it[1], mode))
+        elif k == 'macro':
+            out.append(('\\' + it[1], mode))
+            sigslots = _lookup_slots('macros', it[1], len(it[3]))
+            if all(sl is None for sl in it[3]):
+                out.append((it[2], mode))
+            for sl, sg in zip(it[3], sigslots):
+                if sl is not None:
+                    _emit_slot(sl, sg, mode, out, maths)
+        elif k == 'env':
+            out.append(('\\begin{' + it[1] + '}', mode))
+            sigslots = _lookup_slots('envs', it[1], len(it[2]))
+            for sl, sg in zip(it[2], sigslots):
+                if sl is not None:
+                    _emit_slot(sl, sg, mode, out, maths)
+            bm = _env_body_mode(it[1])
+            inner = (True, None) if bm == 'math' else mode
+            _emit(it[3], inner, None, out, maths)
+            out.append(('\\end{' + it[1] + '}', mode))
+        elif k == 'math':
+            pos = sum(len(t) for t, _ in out)
+            rec = [pos, None, it[1], it[2], 'inline' if it[1] in ('$', '\\(') else 'display', mode]
+            maths.append(rec)
+            out.append((it[1], mode))
+            _emit(it[3], (True, it[1]), None, out, maths)
+            out.append((it[2], mode))
+            rec[1] = sum(len(t) for t, _ in out)
+        elif k == 'verb':
+            out.append(('\\verb' + it[1] + it[2] + it[1], mode))
+        elif k == 'verbatimenv':
+            out.append(('\\begin{verbatim}' + it[1] + '\\end{verbatim}', mode))
+        else:
+            raise ValueError('unknown item %r' % (it,))
+
+
+def _env_body_mode(name):
+    for sig in (SIGS['every'], SIGS['default']):
+        if name in sig['envs']:
+            return sig['envs'][name][1]
+    return None
 
 
 def render(items, bracket=None, sig=None):
     out = []
-    for it in items:
-        k = it[0]
-        if k in ('text', 'space', 'par'):
-            out.append(it[1])
-        elif k == 'group':
-            out.append('{' + render(it[1]) + '}')
-        elif k == 'bgroup':
-            o, c = bracket or ('[', ']')
-            out.append(o + render(it[1], bracket=bracket) + c)
-        elif k == 'comment':
-            out.append('%' + it[1] + it[2])
-        elif k == 'specials':
-            out.append(it[1])
-        elif k == 'macro':
-            s = '\\' + it[1]
-            sigslots = _lookup_slots('macros', it[1], len(it[3]))
-            if all(sl is None for sl in it[3]):
-                s += it[2]
-            for sl, sg in zip(it[3], sigslots):
-                if sl is not None:
-                    s += _render_slot(sl, sg)
-            out.append(s)
-        elif k == 'env':
-            s = '\\begin{' + it[1] + '}'
-            sigslots = _lookup_slots('envs', it[1], len(it[2]))
-            for sl, sg in zip(it[2], sigslots):
-                if sl is not None:
-                    s += _render_slot(sl, sg)
-            s += render(it[3]) + '\\end{' + it[1] + '}'
-            out.append(s)
-        elif k == 'math':
-            out.append(it[1] + render(it[3]) + it[2])
-        elif k == 'verb':
-            out.append('\\verb' + it[1] + it[2] + it[1])
-        elif k == 'verbatimenv':
-            out.append('\\begin{verbatim}' + it[1] + '\\end{verbatim}')
-        else:
-            raise ValueError('unknown item %r' % (it,))
-    return ''.join(out)
+    _emit(items, TEXT, bracket, out, [])
+    return ''.join(t for t, _ in out)
+
+
+def render_modes(items):
+    """(source, per-character expected mode list, math records)"""
+    out, maths = [], []
+    _emit(items, TEXT, None, out, maths)
+    src = ''.join(t for t, _ in out)
+    modes = []
+    for t, m in out:
+        modes.extend([m] * len(t))
+    return src, modes, [tuple(r) for r in maths]
+
+
+def _render_slot(sl, sg):
+    out = []
+    _emit_slot(sl, sg, TEXT, out, [])
+    return ''.join(t for t, _ in out)
 
 
 def _lookup_slots(what, name, n):
-    """slot signatures for rendering delimited (r/d) arguments; searched in all
-    signature tables (names are unique across tables for r/d slots)."""
+    """slot signatures (delimiters of r/d arguments, argument modes); names are unique
+    across the signature tables"""
     for sig in (SIGS['every'], SIGS['default']):
         if what == 'macros' and name in sig['macros'] and len(sig['macros'][name]) == n:
             return sig['macros'][name]
